@@ -104,7 +104,7 @@ def transient(gw):
             dict(getattr(ota, "requested", {})),
             dict(getattr(ota, "unstarted", {})),
             dict(getattr(ota, "started", {})),
-            sorted(getattr(ota, "firmware", {}).keys()),
+            sorted(getattr(ota, "firmware", {}).keys(), key=repr),      # foreign key types must not break the monitor
         )
     return tr, o
 
